@@ -1556,7 +1556,7 @@ pub fn run(args: &Args, model: &mut Model) -> Report {
     check_finished(&mut env, model, &mut rep);
 
     // generated posts: batches from several threads
-    let (nbatches, nsend, ne2e) = if args.thorough { (9000, 12000, 4000) } else { (300, 500, 200) };
+    let (nbatches, nsend, ne2e) = if args.thorough { (14000, 16000, 6000) } else { (300, 500, 200) };
     let sids = env.sids.clone();
     let mut tag: u64 = 1_000;
     for bi in 0..nbatches {
